@@ -168,8 +168,11 @@ class Monitor:
             "wall_s": round(time.time() - self.t0, 2),
             "violations": len(self.violations),
         }
-        os.makedirs(os.path.join(env.VERIF, "evidence"), exist_ok=True)
-        path = os.path.join(env.VERIF, "evidence", f"{self.pid}.json")
+        # XGIMON_EVIDENCE_DIR: used by the self-validation only, so that runs against a mutant never
+        # overwrite the evidence of the real tree
+        evdir = os.environ.get("XGIMON_EVIDENCE_DIR") or os.path.join(env.VERIF, "evidence")
+        os.makedirs(evdir, exist_ok=True)
+        path = os.path.join(evdir, f"{self.pid}.json")
         with open(path + ".tmp", "w") as f:
             json.dump(ev, f, indent=1, default=str)
         os.replace(path + ".tmp", path)
@@ -180,7 +183,7 @@ class Monitor:
         code = 0
         if self.violations:
             code = 1
-            rdir = os.path.join(env.VERIF, "replays", self.pid)
+            rdir = os.path.join(os.environ.get("XGIMON_EVIDENCE_DIR") or env.VERIF, "replays", self.pid)
             os.makedirs(rdir, exist_ok=True)
             for k, v in sorted(self.violations.items()):
                 name = hashlib.blake2b(k.encode(), digest_size=6).hexdigest() + ".json"
